@@ -78,6 +78,7 @@ def run(repo, rep, tier):
               "generated identifier is a word of the compiler (%d call "
               "sites)" % n_id, construct="identifier-kind-constant",
               detail="; ".join(badp))
+    L.whitelist_rule(repo, rep, "R09.3", ("chameleon.metal",))
     L.state_rule(repo, rep)
 
 
@@ -734,6 +735,49 @@ def element_details(repo, rep, rule="R09.3"):
               "TAL statements excepted (split as written first)",
               construct="decode-which", where=wh,
               detail=str([src(c) for c in cmps]))
+    # ... and the statements excepted are exactly those whose parser splits
+    # the text into parts itself (it decodes each part after the split): a
+    # statement missing from the set is decoded twice and split at a decoded
+    # ';', one too many is never decoded
+    tal_mod = repo.module("chameleon.tal")
+    try:
+        multipart = set(repo.const("chameleon.tal", "MULTIPART"))
+    except Exception:
+        multipart = None
+    splitters = {n_ for n_, f_ in tal_mod.funcs.items() if any(
+        isinstance(c, ast.Call) and src(c.func) == "split_parts"
+        for c in ast.walk(f_.node))} if hasattr(tal_mod, "funcs") else set()
+    if not splitters:
+        splitters = {q.rsplit(".", 1)[1] for q, f_ in repo.funcs.items()
+                     if q.startswith("chameleon.tal.") and q.count(".") == 2
+                     and any(isinstance(c, ast.Call) and
+                             src(c.func) == "split_parts"
+                             for c in ast.walk(f_.node))}
+    split_stmts = set()
+    last = {}
+    for n in ast.walk(ve.node):
+        if isinstance(n, ast.Assign) and isinstance(n.value, ast.Subscript) \
+                and src(n.value.value) == "ns" and isinstance(
+                    n.value.slice, ast.Tuple) and len(n.value.slice.elts) == 2 \
+                and src(n.value.slice.elts[0]) == "TAL" and isinstance(
+                    n.value.slice.elts[1], ast.Constant):
+            last[(src(n.targets[0]), n.lineno)] = n.value.slice.elts[1].value
+    for c in ast.walk(ve.node):
+        if isinstance(c, ast.Call) and isinstance(c.func, ast.Attribute) and \
+                src(c.func.value) == "tal" and c.func.attr in splitters and \
+                c.args:
+            arg = src(c.args[0])
+            cands = [(ln, v) for (nm, ln), v in last.items()
+                     if nm == arg and ln <= c.lineno]
+            if cands:
+                split_stmts.add(max(cands)[1])
+    rep.check(multipart is not None and len(split_stmts) >= 3 and
+              split_stmts == multipart, rule, ve.qualname, "the statements "
+              "excepted from decoding (tal.MULTIPART) are exactly those "
+              "handed to a parser that splits at ';' itself",
+              construct="multipart-complete", where=wh,
+              detail="MULTIPART %s, split by their parser %s" % (
+                  sorted(multipart or ()), sorted(split_stmts)))
     # use-macro: omit the element's own tag
     branch = []
     for n in ast.walk(ve.node):
